@@ -39,9 +39,9 @@ def conc(lines, n):
         t = ln.split()
         if not t or t[0] != "conc" or t[2] != "ok":
             continue
-        iw, ip, ic, ipers, full = t[3:8]
-        nth = int(t[10][1:], 16)
-        pos = 11
+        iw, ip, ic, ipers, full, tight = t[3:9]
+        nth = int(t[11][1:], 16)
+        pos = 12
         threads = []
         for _ in range(nth):
             k, a = t[pos], t[pos + 1]
@@ -56,7 +56,7 @@ def conc(lines, n):
             tid, w, p, cu, pers, ncl, _done = t[pos:pos + 7]
             pos += 7
             steps.append("(%s, (%s, %s, %s, %s, %s))" % (nat(tid), z(w), z(p), z(cu), z(pers), z(ncl)))
-        out.append("((init_of %s %s %s %s %s, [%s]), [%s])" % (z(iw), z(ip), z(ic), z(ipers), boolean(full),
+        out.append("((init_of %s %s %s %s %s %s, [%s]), [%s])" % (z(iw), z(ip), z(ic), z(ipers), boolean(full), boolean(tight),
                                                                 "; ".join(threads), "; ".join(steps)))
         if len(out) >= n:
             break
